@@ -18,7 +18,8 @@ import (
 // the repository (x/, utils/, types/ ...) inlined. Atoms:
 //
 //	v verify  call of a function/method whose name starts with "VerifyTicket" (any case): the OVM keeper's
-//	          VerifyTicket, VerifyTicketUnmarshal, verifyTicketWithKeyUnmarshal — not inlined
+//	          VerifyTicket, VerifyTicketUnmarshal, verifyTicketWithKeyUnmarshal — not inlined — that returned nil
+//	x reject  the same call, returning an error (a handler that goes on after `x` ignores the verdict)
 //	k kyc     call of types.KycDataPayload.Validate
 //	w write   Set/Delete on an SDK store, Set* on a params subspace, or a method named Set*/Remove*/Delete* of
 //	          a repository type called msgServer, *Keeper or *Hooks (the method is still inlined, so the store
@@ -650,7 +651,11 @@ func prefixed(pre string, s *summary) *summary {
 func (a *analyzer) funcCall(fn *types.Func, recv types.Type, x *ast.CallExpr) *summary {
 	name := fn.Name()
 	if verifyName.MatchString(name) {
-		return a.atom("v", funcName(fn), x.Pos())
+		s := a.atom("v", funcName(fn), x.Pos())
+		if returnsError(fn) { // v: the verifier returned nil; x: it returned an error
+			s.ok, s.err, s.unk = single("v"), single("x"), set{}
+		}
+		return s
 	}
 	pkgPath := ""
 	if fn.Pkg() != nil {
